@@ -442,6 +442,59 @@ func deepCopy18(a any) any {
 	return deepCopyV18(reflect.ValueOf(a)).Interface()
 }
 
+// c18NilSpellings: the ways of writing "nil" (IsNil is true of all of them).
+var c18NilSpellings = []any{nil, (*S18)(nil), (*T18)(nil), (*int)(nil), []*S18(nil), map[string]*S18(nil), (*W18)(nil)}
+
+// respellNils returns a deep copy of x in which nils are written differently where the static type allows it:
+// a nil top-level value becomes another spelling of nil (untyped nil, typed nil pointer, nil slice, nil map), and
+// interface-typed slots holding an untyped nil get a typed nil pointer and vice versa.  Both values are "nil" in the
+// same positions, so every structural law treats them alike.
+func (g *gen18) respellNils(x any) any {
+	r := g.r
+	if naiveIsNil18(x) {
+		return pick(r, c18NilSpellings)
+	}
+	c := deepCopyV18(reflect.ValueOf(x))
+	var walk func(v reflect.Value, depth int)
+	walk = func(v reflect.Value, depth int) {
+		if depth > 6 {
+			return
+		}
+		switch v.Kind() {
+		case reflect.Interface:
+			if v.CanSet() && r.Intn(3) != 0 {
+				if v.IsNil() {
+					v.Set(reflect.ValueOf(pick(r, c18NilSpellings[1:])))
+				} else if e := v.Elem(); (e.Kind() == reflect.Ptr || e.Kind() == reflect.Slice || e.Kind() == reflect.Map) && e.IsNil() {
+					if r.Intn(2) == 0 {
+						v.Set(reflect.Zero(v.Type()))
+					} else {
+						v.Set(reflect.ValueOf(pick(r, c18NilSpellings[1:])))
+					}
+				}
+				return
+			}
+			if !v.IsNil() {
+				walk(v.Elem(), depth+1)
+			}
+		case reflect.Ptr:
+			if !v.IsNil() {
+				walk(v.Elem(), depth+1)
+			}
+		case reflect.Struct:
+			for i := 0; i < v.NumField(); i++ {
+				walk(v.Field(i), depth+1)
+			}
+		case reflect.Slice:
+			for i := 0; i < v.Len(); i++ {
+				walk(v.Index(i), depth+1)
+			}
+		}
+	}
+	walk(c, 0)
+	return c.Interface()
+}
+
 // mutate returns a deep copy of x with one child replaced, or the length changed by one, or nil-ness flipped.
 func (g *gen18) mutate(x any) any {
 	if x == nil {
@@ -1054,8 +1107,10 @@ func runC18(cfg *Config) *Report {
 		}
 		var y any
 		switch c := r.Intn(20); {
-		case c < 6:
+		case c < 5:
 			y = deepCopy18(x)
+		case c < 8:
+			y = g.respellNils(x)
 		case c < 13:
 			y = g.mutate(x)
 		case c < 17:
